@@ -1015,6 +1015,11 @@ impl Engine for HistEngine {
     }
 
     fn run_shard(&self, tier: Tier, shard: usize, nshards: usize, out: &mut ShardResult) {
+        if self.flavor == Flavor::C08 {
+            // ingestion acknowledged at every sync point of a concurrent flush, then clean restart
+            crate::gate::run_restart_scenarios("C08", tier, shard, nshards, out);
+            crate::common::install_flush_counter();
+        }
         let mut global_idx: u64 = 0;
         for p in plan(self.flavor, tier) {
             for (opts, depth) in &p.opts {
@@ -1079,6 +1084,9 @@ impl Engine for HistEngine {
     }
 
     fn replay(&self, case: &Value) -> Option<Violation> {
+        if case.get("schedule").is_some() {
+            return crate::gate::replay_gate_case(self.flavor.name(), case);
+        }
         let case: HistCase = serde_json::from_value(case.clone()).expect("hist case");
         let n = case.ops.len();
         run_history(&case, n).violation
